@@ -26,6 +26,17 @@ checks.update({
          "Transfers with plan-chosen missing sets, idle gaps just below/above 5 s and 60 s on the simulated clock, repeated re-request rounds, partial resupply, two concurrent IDs; every 0x8003 the server writes is parsed by the reference codec and must be due (idle > 5 s at inbound data, at most once per 5 s), name the first packet's serial and exactly the missing numbers ascending; expired transfers never complete, resupplied ones do. Sampled; N up to 24 (quick) / 255 (thorough).",
          "exact 5 s / 60 s boundary instants are avoided by the generator (property does not say which way they fall)"),
 })
+checks.update({
+ "C11": ("exploration", "5/C11", "deterministic simulation + porcupine linearizability check of the recorded join/leave/send history against a key->connection map, plus direct callback rules",
+         "2-3 keys, 3-8 connections competing for them (duplicate-key connects, FIN/RST, reconnects, connections that never join) and 1-6 concurrent SendActiveMessage callers under all scheduling strategies; invoke/return events are stamped with the simulator's global step number and checked with porcupine (Illegal = violation, Unknown = inconclusive and counted); direct rules: refused connection closed by the server, one join and one leave callback with the same key, not-exist returned without simulated time passing.",
+         "histories are capped at 40 operations; a send whose command never reached a socket (routed connection died first) is dropped from the history as unobservable"),
+ "C12": ("exploration", "5/C12", "deterministic simulation with the synctest clock: concurrent callers x reactive terminal models (prompt/late/duplicate/unknown-serial/no response) x schedules (incl. clock jitter), oracle over the recorded history",
+         "Every command is identified on the socket by its unique body, so the caller's own platform serial is known independently of the code; each call must return exactly once, with the terminal's frame that echoes that serial (never another caller's, never an invented or reused one) or with a timeout no earlier than the configured duration and, in runs without injected clock jitter, exactly at write time + timeout; a response delivered before the deadline must win; ordinary traffic in between must satisfy the C06 reply model incl. consecutive platform serials.",
+         "0x9003/0x1003 (no serial on the wire) is not used with several outstanding commands"),
+ "C13": ("fault_enumeration", "5/C13", "deterministic simulation: single-fault enumeration (FIN / RST / write failure at every scheduler step of FIFO baselines) + seeded random disconnect points and schedules; oracles = no panic in any goroutine, bounded liveness of every caller",
+         "For each baseline command scenario every step index of its canonical schedule is used once as the instant of a peer FIN, once of a RST and once of a write failure on the command's connection (exhaustive over single fault points of those baselines); on top, seeded runs with 0-7 queued/outstanding commands, equal timeouts expiring together, clock jitter and all strategies. A panic anywhere is a violation (recorded instead of killing the process); after faults stop and the clock has passed every timeout, every SendActiveMessage call - including a probe call for an unknown key that detects a wedged session manager - must have returned.",
+         "nothing is demanded about which error a caller gets; back-pressure from a stalled TCP peer is not modelled"),
+})
 pending = {}
 all_ids = ["C%02d" % i for i in range(1, 21)]
 man = {
